@@ -43,6 +43,31 @@ Proof.
   destruct (IH eq_refl) as [y [Hy Hfy]]. exists y. split; [right; exact Hy | exact Hfy].
 Qed.
 
+(* the Timestamp conversion is injective: distinct instants (also before 1970) give distinct time stamps *)
+Theorem ts_of_injective x y : ts_of x = ts_of y -> x = y.
+Proof.
+  unfold ts_of. cbv zeta.
+  pose proof (N.div_mod (x - ts_base_ns) 1000000000 ltac:(discriminate)) as Dx.
+  pose proof (N.div_mod (y - ts_base_ns) 1000000000 ltac:(discriminate)) as Dy.
+  pose proof (N.div_mod (ts_base_ns - x) 1000000000 ltac:(discriminate)) as Ex.
+  pose proof (N.div_mod (ts_base_ns - y) 1000000000 ltac:(discriminate)) as Ey.
+  pose proof (N.mod_lt (ts_base_ns - x) 1000000000 ltac:(discriminate)) as Lx.
+  pose proof (N.mod_lt (ts_base_ns - y) 1000000000 ltac:(discriminate)) as Ly.
+  destruct (N.leb ts_base_ns x) eqn:Hx; destruct (N.leb ts_base_ns y) eqn:Hy;
+    try (apply N.leb_le in Hx); try (apply N.leb_gt in Hx); try (apply N.leb_le in Hy); try (apply N.leb_gt in Hy).
+  - intros He. pose proof (f_equal (fun t => snd (fst t)) He) as Hq. pose proof (f_equal snd He) as Hr.
+    cbn [fst snd] in Hq, Hr. rewrite Hq, Hr in Dx. lia.
+  - destruct (N.eqb ((ts_base_ns - y) mod 1000000000) 0); intros He; inversion He.
+  - destruct (N.eqb ((ts_base_ns - x) mod 1000000000) 0); intros He; inversion He.
+  - intros He.
+    destruct (N.eq_dec ((ts_base_ns - x) mod 1000000000) 0) as [Rx | Rx];
+      destruct (N.eq_dec ((ts_base_ns - y) mod 1000000000) 0) as [Ry | Ry];
+      try (rewrite (proj2 (N.eqb_eq _ _) Rx) in He); try (rewrite (proj2 (N.eqb_neq _ _) Rx) in He);
+      try (rewrite (proj2 (N.eqb_eq _ _) Ry) in He); try (rewrite (proj2 (N.eqb_neq _ _) Ry) in He);
+      pose proof (f_equal (fun t => snd (fst t)) He) as Hq; pose proof (f_equal snd He) as Hr;
+      cbn [fst snd] in Hq, Hr; lia.
+Qed.
+
 Definition file_at (fs : fsnap) (p : path) (nd : node) : Prop :=
   fs_get fs p = Some nd /\ n_kind nd = KFile.
 
